@@ -48,6 +48,30 @@ func newPGPKey(name string) rotKey {
 	return k
 }
 
+// newPGPKeyOfflinePrimary: the common "offline primary key" layout - the primary key only certifies, signing is delegated
+// to a signing subkey.  ids holds the key ids that may sign (the signing subkey's only).
+func newPGPKeyOfflinePrimary(name string) rotKey {
+	cfg := &packet.Config{RSABits: 2048}
+	e, err := openpgp.NewEntity(name, "", name+"@example.org", cfg)
+	must(err)
+	must(e.AddSigningSubkey(cfg))
+	for _, id := range e.Identities {
+		id.SelfSignature.FlagsValid, id.SelfSignature.FlagCertify, id.SelfSignature.FlagSign = true, true, false
+	}
+	var b bytes.Buffer
+	w, err := armor.Encode(&b, openpgp.PrivateKeyType, nil)
+	must(err)
+	must(e.SerializePrivate(w, cfg)) // (re-signs the self-signatures: the flags above are what the key file says)
+	must(w.Close())
+	k := rotKey{priv: b.Bytes()}
+	for _, s := range e.Subkeys {
+		if s.Sig.FlagsValid && s.Sig.FlagSign {
+			k.ids = append(k.ids, fmt.Sprintf("%016x", s.PublicKey.KeyId))
+		}
+	}
+	return k
+}
+
 func newRSAKey() rotKey {
 	k, err := rsa.GenerateKey(crand.Reader, 2048)
 	must(err)
@@ -107,6 +131,56 @@ func famSignRotation(tr *Trace, id *int, scratch string) int {
 	must(os.MkdirAll(dir, 0o755))
 	root := filepath.Join(dir, "src")
 	Materialise(root, smallTree())
+	// key files of other shapes than the repository's test keys: a valid signing key in them signs, and it is that key
+	{
+		rk := newRSAKey()
+		rkey, _ := pem.Decode(rk.priv)
+		_ = rkey
+		pubDER, err := x509.MarshalPKIXPublicKey(rk.pub)
+		must(err)
+		pubPEM := pem.EncodeToMemory(&pem.Block{Type: "PUBLIC KEY", Bytes: pubDER})
+		off := newPGPKeyOfflinePrimary("offline")
+		shapes := []struct {
+			f, method, shape string
+			file             []byte
+			keys             []rotKey
+			want             []any
+		}{
+			{"apk", "", "private key followed by its public key", append(append([]byte{}, rk.priv...), pubPEM...), []rotKey{rk}, []any{"key1"}},
+			{"apk", "", "private key after a comment line", append([]byte("# signing key of the build farm\n"), rk.priv...), []rotKey{rk}, []any{"key1"}},
+			{"deb", "debsign", "certify-only primary key, signing subkey", off.priv, []rotKey{off}, strs(off.ids)},
+			{"rpm", "", "certify-only primary key, signing subkey", off.priv, []rotKey{off}, strs(off.ids)},
+		}
+		for _, sh := range shapes {
+			kp := filepath.Join(dir, "shape-"+sh.f+sh.method+".key")
+			must(os.WriteFile(kp, sh.file, 0o600))
+			c := baseCfg("shapepkg")
+			c.Entries = []Entry{{Type: "file", Src: "src/bin", Dst: "/usr/bin/tool"}}
+			switch sh.f {
+			case "deb":
+				c.DebSigKey, c.DebSigMethod = kp, sh.method
+			case "rpm":
+				c.RpmSigKey = kp
+			case "apk":
+				c.ApkSigKey, c.ApkSigKeyName = kp, "shape"
+			}
+			ev := M{"ev": "keyshape", "fmt": sh.f, "method": sh.method, "shape": sh.shape, "may_sign": sh.want, "sig": "", "err": ""}
+			cfg, err := parseCfg(c.YAML(root))
+			if err == nil {
+				var b []byte
+				b, _, err = buildFormat(&cfg, sh.f)
+				if err == nil {
+					ev["sig"] = sigOf(sh.f, sh.method, b, sh.keys)
+				}
+			}
+			if err != nil {
+				ev["err"] = safeStr(strings.ReplaceAll(err.Error(), dir, "$DIR"))
+			}
+			*id++
+			n++
+			tr.Emit(*id, []M{{"ev": "case", "id": *id, "fam": "keyshape"}, ev, {"ev": "endcase"}})
+		}
+	}
 	for _, v := range []struct{ f, method string }{{"deb", "debsign"}, {"deb", "dpkg-sig"}, {"rpm", ""}, {"apk", ""}} {
 		var keys []rotKey
 		if v.f == "apk" {
